@@ -14,7 +14,7 @@ EXTRACT = ["C06"]
 BINS = ["c06"]
 NEEDS_CICADA = False
 ALLOWED_AXIOMS = []
-PINNED = ["C06_full", "C06_ids", "C06_remove_pid", "C06_nonvacuous", "C06_regressions"]
+PINNED = ["C06_full_statement", "C06_full", "C06_invariant", "C06_ids", "C06_remove_pid", "C06_regressions", "C06_nonvacuous"]
 TRUSTED = [
     "Coq 8.16.1 kernel (coqc; coqchk in thorough); vm_compute only in refutation witnesses / Examples",
     "hand transcription of shell.rs job methods, jobc.rs, signals.rs maps, types.rs Job/WaitStatus and of "
